@@ -5,11 +5,11 @@ CONSTANTS
   MaxOps = 2
   MaxIno = 10
   Cfg <- MC_Cfg_plain
-  TaintOn = TRUE
+  AsFound <- MC_AF_none
   Mode = "c06"
   InitS <- MC_S_links
   ScenCfg <- MC_Scen_plain
   ScenTree <- MC_Tree_links
 VIEW View
-INVARIANTS TreeOK ContainedOK OutsideFrozen NameGateOK MirrorOK Report
+INVARIANTS TreeOK HandlesOK ContainedOK OutsideFrozen NameGateOK MirrorOK Report
 CHECK_DEADLOCK FALSE
